@@ -355,6 +355,67 @@ CHECKS['C14']['text'] = (
 CHECKS['C14']['note'] += (' History stream: partitions sharing grid/IntervalProd objects with interleaved queries must answer '
                           'like freshly built equal partitions. Findings C14-F1/F2 fixed in /repo (e9629b2, 56dfd19).')
 
+CHECKS.update({
+'C11': dict(
+    technique='Lean 4 proof of refinement/resumption over abstract solver state machines + exact-rational differential test against the real solvers',
+    text='18 theorems for all operators, proximal and gradient maps (arbitrary functions), all step sizes, all n and m: '
+         'admm_refines / adupdates_refines / doubleprox_refines (the optimised solvers produce the iterates and callback logs '
+         'of their _simple versions, by induction with the carried invariant, e.g. tmp_ran = L x); resume_landweber, '
+         '_kaczmarz (fixed order), _proximal_gradient (constant lam), _osmlem, _steepest_descent (stateless line search), '
+         'pdhg_resume (x_relax, y passed back) and pdhg_resume_needs_state (proved 2-step counterexample without them); '
+         'callback_once and per-solver callback counts. "Up to rounding" is the tolerance of the correspondence, not a theorem. '
+         'KL, Huber, group-L1, separable sums, balls: implementation-vs-implementation streams only (test).',
+    note='hand-written model Model/Solvers.lean (one let per statement of the loop bodies) tied by running every state machine '
+         'on the matrices of the real operator/adjoint and closed-form proximals and comparing the whole callback-recorded '
+         'iterate sequence (exact on short-dyadic inputs, 1e-9 relative otherwise); excluded: random=True, accelerated PDHG, '
+         'callable lam, line searches with memory, gauss_newton.',
+    design='6/C11'),
+'C12': dict(
+    technique='Lean 4 + Mathlib proofs on real inner-product spaces about the solver state machines + differential test + monotonicity/optimality oracles',
+    text='proof (partial). Proved for all dimensions: landweber_residual_mono, kaczmarz_error_mono, cg_energy_mono, '
+         'cgn_residual_mono, armijo_descent and steepest_descent_mono (backtracking never increases f), power_method_le_opnorm, '
+         'KKT point <=> fixed point for pdhg, (accelerated) proximal_gradient, admm_linearized, forward_backward_pd; one '
+         'direction for douglas_rachford_pd (_partial). NOT proved (measured by the harness as labelled tests): convergence of '
+         'the non-smooth solvers towards optimality, CG exact after dim steps, the self-adjoint power-method branch. Open '
+         'finding F12 (forward_backward_pd aliases x_old; the repair contradicts the repository\'s own test).',
+    note='same models and tie as C11 plus conjugate gradients, CG on the normal equations, the line search, both power-method '
+         'branches and FISTA (on doubles); operators are linear with an adjoint pair and any bound c >= ||A||; proximals enter '
+         'as resolvents (C07 ties the real proximals to that); numpy.linalg for oracle references.',
+    design='6/C12'),
+'C07': dict(
+    technique='Lean 4 proof over an executable proximal model + differential correspondence + optimality oracle',
+    text='32 theorems. Abstract (any real inner product space, so every weighted/product space): prox_minimises (resolvent '
+         'inequality => unique minimiser with quadratic gap), prox_unique, prox_firmly_nonexpansive, indicator prox feasible '
+         'and idempotent, and all calculus rules with the code\'s step formulas (translation, argument scaling, left scaling, '
+         'quadratic perturbation, Moreau, separable sum); L2 norm and its conjugate. Scalar layer over any ordered field lifted '
+         'to every n with positive weights and per-point steps: the coded formulas of L1 (incl. the x-(x-g)/max(|x-g|/s,1) form), '
+         'conj-L1, L2^2, conj-L2^2, box, Huber, KL-conj; l1_list_minimises end to end; sum-constraint, simplex KKT sufficiency and '
+         'threshold feasibility (index-wise; _partial for the sorted-list algorithm, whose residual the driver checks exactly on '
+         'every run). No optimality theorem for Linf/L1-ball (proj_l1), group L1-L2, nuclear norm, KL cross entropy (Lambert-W): '
+         'executed model or oracle on the real code only. Open findings C07-F1..F6.',
+    note='hand-written model Model/Prox.lean tied by correspondence: f.proximal(sigma)(x) of every functional class with a '
+         'proximal (29 by introspection), all proximal_* factories, random expression trees and separable sums vs Fn.prox at Rat '
+         '(exact on the dyadic stream, 1e-9 elsewhere; np.sqrt a parameter); oracle on the real code for all classes: objective at '
+         'p vs segment/coordinate/random probes and Nelder-Mead <= 3-d, f(p) finite, indicator idempotence, firm '
+         'non-expansiveness, Moreau bridge.',
+    design='6/C07'),
+})
+CHECKS['C04']['technique'] = ('Lean 4 proof over a two-layer model; overload dispatch and constructor flags extracted from the Python AST on '
+                              'every run and proved equal to the model; class-tree correspondence')
+CHECKS['C04']['text'] = (
+    'Theorems for every expression tree (unbounded depth, all scalars incl. 0, arbitrary nonlinear leaves, any field): the object '
+    'built by the dispatch AS EXTRACTED from the source (buildT_eq_build, extracted_dispatch_sound) evaluates out-of-place and '
+    'in-place to the documented table value (build_sound, inplace_eq_outofplace); build_type / build_total / build_rejects '
+    '(domain, range, Functional-ness; ill-typed rejected); linear_flag_sound and linear_flag_complete (full after the repair of '
+    'C04-F1); flag_table_matches (the is_linear rule of each of the 19 expression classes extracted from its __init__); '
+    'extracted_facts (A**n loop, __array_priority__ order, __radd__ alias, scalar-merge shortcuts).')
+CHECKS['C04']['note'] = (
+    'translator tools/extract/algebra_dispatch.py -> Gen/AlgebraDispatch.lean (ordered guard trees of the overloads, delegations, '
+    'priority order, scalar-merge shortcut, is_linear of 19 constructors; tiny grammar, anything else is a broken obligation); '
+    'correspondence ~28k cases quick / ~207k thorough: class tree, raise/no-raise, domain, range, is_linear, Functional-ness and '
+    'out-of-place/in-place values vs build/run/runIn/typeOf/den/linOf; trusted: Python MRO and reflected-first semantics as encoded '
+    'in the interpreter; constructors\' argument checks and _call bodies hand-modelled; leaves opaque; dyadic grid, degree <= 12.')
+
 NOT_YET = {}
 
 
